@@ -61,11 +61,14 @@ fn ev_pos(name: &str) -> Option<usize> {
 /// C11 known class F-C11-deferral-check-then-act: a process_commits call that began before the reader locked K1 was
 /// still running when the lock was taken (its decision not to postpone the dereference predates the lock).
 fn c11_race_window() -> bool {
+	c11_race_window_for("R:locked")
+}
+fn c11_race_window_for(locked_event: &str) -> bool {
 	let l = match EVLOG.lock() {
 		Ok(l) => l.clone(),
 		Err(_) => return false,
 	};
-	let locked = match l.iter().position(|e| e == "R:locked") {
+	let locked = match l.iter().position(|e| e == locked_event) {
 		Some(i) => i,
 		None => return false,
 	};
@@ -905,6 +908,107 @@ fn c11_scenario(split_pipeline: bool) -> impl Fn() + Sync + Send + 'static {
 	}
 }
 
+/// C11, two readers: both obtain the reader of K1 at the same time (get_tree registers it on first use), lock it, walk
+/// the tree twice; a pruner dereferences K1; a pipeline thread drives the stages. Under its lock each reader sees the
+/// tree unchanged; at the end K1 is gone.
+fn c11_two_readers() -> impl Fn() + Sync + Send + 'static {
+	use parity_db::{NewNode, NodeRef, Operation};
+	move || {
+		ITER.fetch_add(1, Ordering::SeqCst);
+		EVLOG.lock().unwrap().clear();
+		let dir = fresh_dir();
+		parity_db::verif::set_external_workers(true);
+		let tree_col = ColumnOptions { multitree: true, allow_direct_node_access: true, ..Default::default() };
+		let opts = options(&dir, vec![tree_col], false);
+		let db = Arc::new(Db::open_or_create(&opts).expect("open"));
+		let k1 = key(1);
+		db.commit_changes(vec![(0u8, Operation::InsertTree(k1.clone(), NewNode { data: val(9, 9), children: vec![NodeRef::New(NewNode { data: val(30, 7), children: vec![] })] }))]).unwrap();
+		db.process_commits().unwrap();
+		db.flush_logs().unwrap();
+		db.enact_logs().unwrap();
+		db.clean_logs().unwrap();
+		fn walk(g: &(dyn parity_db::TreeReader + Send + Sync)) -> Option<Vec<(Vec<u8>, usize)>> {
+			let (root, children) = g.get_root().unwrap()?;
+			let mut out = vec![(root, children.len())];
+			let mut stack = children;
+			while let Some(a) = stack.pop() {
+				let (d, ch) = g.get_node(a).unwrap()?;
+				out.push((d, ch.len()));
+				stack.extend(ch);
+			}
+			Some(out)
+		}
+		let mut readers = vec![];
+		for tag in ["A", "B"] {
+			let (db, k1) = (db.clone(), k1.clone());
+			readers.push(loom::thread::spawn(move || {
+				let tree = match db.get_tree(0, &k1).unwrap() {
+					Some(t) => t,
+					None => return None,
+				};
+				ev(&format!("R{}:got-tree", tag));
+				let g = tree.read();
+				ev(&format!("R{}:locked", tag));
+				let first = walk(&**g);
+				if first.is_none() {
+					drop(g);
+					return Some(tree)
+				}
+				loom::thread::yield_now();
+				let second = walk(&**g);
+				if first != second {
+					if c11_race_window_for(&format!("R{}:locked", tag)) {
+						tolerate(format!("the locked tree changed under its reader; the process_commits call that dereferenced K1 began before the reader locked K1 and was still running when the lock was taken [{}]", ev_dump()));
+					} else {
+						panic!("the locked tree changed under reader {} [{}]", tag, ev_dump());
+					}
+				}
+				drop(g);
+				ev(&format!("R{}:unlocked", tag));
+				Some(tree)
+			}));
+		}
+		let pruner = {
+			let (db, k1) = (db.clone(), k1.clone());
+			loom::thread::spawn(move || {
+				db.commit_changes(vec![(0u8, Operation::DereferenceTree(k1.clone()))]).unwrap();
+				ev("P:committed-deref-K1");
+			})
+		};
+		let pipe = {
+			let d = db.clone();
+			loom::thread::spawn(move || {
+				for _ in 0..2 {
+					ev("pipe:P-start");
+					d.process_commits().unwrap();
+					ev("pipe:P");
+				}
+				d.flush_logs().unwrap();
+				d.enact_logs().unwrap();
+				d.clean_logs().unwrap();
+			})
+		};
+		let got: Vec<_> = readers.into_iter().map(|r| r.join().unwrap()).collect();
+		// one reader object per tree: a lock taken through a second object would be invisible to the deferral checks
+		// and to the write lock that guards the dereference (both handles are still alive here)
+		if let (Some(a), Some(b)) = (&got[0], &got[1]) {
+			assert!(Arc::ptr_eq(a, b), "two get_tree calls for the same tree returned two different reader objects while both are alive [{}]", ev_dump());
+		}
+		drop(got);
+		pruner.join().unwrap();
+		pipe.join().unwrap();
+		for _ in 0..6 {
+			db.process_commits().unwrap();
+		}
+		db.flush_logs().unwrap();
+		db.enact_logs().unwrap();
+		db.clean_logs().unwrap();
+		assert!(db.get_tree(0, &k1).unwrap().is_none(), "K1 still there after its dereference completed");
+		let db = Arc::try_unwrap(db).ok().expect("sole owner");
+		drop(db);
+	}
+}
+
 /// C05 with the crate's real worker loops instead of a scripted pipeline thread: writer (one two-key transaction
 /// moving both keys to other size classes), reader (k1, k2, k1), log / flush / commit / cleanup workers.
 fn c05_real_workers(mask: u8) -> impl Fn() + Sync + Send + 'static {
@@ -1113,9 +1217,11 @@ fn run_child(prop: &str, tier: &str, idx: usize) -> Outcome {
 		("C09L", 0) => explore("growth-in-progress/reader+pipeline-thread", 1, wall, c09_growth_under_reader(false)),
 		("C09L", 1) => explore("growth-in-progress/reader+pipeline-thread", 2, wall.min(if quick { 25.0 } else { wall }), c09_growth_under_reader(false)),
 		("C09L", 2) if !quick => explore("growth-in-progress/2-readers+pipeline-thread", 1, wall, c09_growth_under_reader(true)),
+		("C11L", 5) => explore("2-readers+pruner/one-pipeline-thread", 1, wall.min(if quick { 30.0 } else { wall }), c11_two_readers()),
+		("C11L", 6) if !quick => explore("2-readers+pruner/one-pipeline-thread", 2, wall, c11_two_readers()),
 		("C11L", 0) => explore("reader+pruner+writer/one-pipeline-thread", 1, wall, c11_scenario(false)),
-		("C11L", 1) => explore("reader+pruner+writer/one-pipeline-thread", 2, wall, c11_scenario(false)),
-		("C11L", 2) => explore("reader+pruner+writer/split-pipeline", 1, wall, c11_scenario(true)),
+		("C11L", 1) if !quick => explore("reader+pruner+writer/one-pipeline-thread", 2, wall, c11_scenario(false)),
+		("C11L", 2) if !quick => explore("reader+pruner+writer/split-pipeline", 1, wall, c11_scenario(true)),
 		("C11L", 3) if !quick => explore("reader+pruner+writer/split-pipeline", 2, wall, c11_scenario(true)),
 		("C11L", 4) if !quick => explore("reader+pruner+writer/one-pipeline-thread", 3, wall, c11_scenario(false)),
 		("C05", 0) => explore("hash/one-pipeline-thread", 2, wall, c05_scenario(false, false, false)),
